@@ -1,5 +1,5 @@
 (* Properties_C16.v — C16: drain and run.  Theorems only. *)
-From Verif Require Import Lib WorldSpec LibSpec LibSpec2 ProofsDrain.
+From Verif Require Import Lib WorldSpec WorldSpec2 LibSpec LibSpec2 ProofsDrain StartSpec RunSpec.
 From Coq Require Import Lia.
 Local Open Scope Z_scope.
 
@@ -77,3 +77,19 @@ Print Assumptions C16_run_ex.
 
 Example C16_ex : sink_string (Some [80; 82; 69; 58; 0]) [97; 98] true = (0, Some [80; 82; 69; 58; 97; 98; 0]).
 Proof. vm_compute. reflexivity. Qed.
+
+(* RUN COMPOSITION LEAKS NOTHING, EVERY FAULT PLAN: reproc_run_ex (new, start, drain with any sink
+   behaviour, stop, destroy in one call) leaves the caller's descriptor table and heap exactly as it
+   found them, whatever it returns -- every start failure, every drain error, every sink error,
+   every stop outcome, every child behaviour, any failing call at any point *)
+Theorem C16_run_leaves_no_descriptor : forall fuel argv o src s w x w',
+  WorldSpec2.wf w -> 0 <= w_cur w -> 0 < w_next_blk w ->
+  reproc_run_ex fuel argv o src s w = Ret x w' -> pr_fds (curp w') = pr_fds (curp w).
+Proof. exact run_ex_restores_descriptor_table. Qed.
+Print Assumptions C16_run_leaves_no_descriptor.
+Theorem C16_run_leaves_no_block : forall fuel argv o src s w x w',
+  WorldSpec2.wf w -> 0 <= w_cur w -> w_cur w = w_main w -> 0 < w_next_blk w ->
+  (forall id, w_next_blk w <= id -> heap_live id w = false) ->
+  reproc_run_ex fuel argv o src s w = Ret x w' -> forall id, heap_live id w' = heap_live id w.
+Proof. exact run_ex_releases_memory. Qed.
+Print Assumptions C16_run_leaves_no_block.
